@@ -220,6 +220,24 @@ def mon_c08(ix: Index):
             out.append(V("C08", "C08/id-not-function-of-position", "chain %s -> two ids" % nc))
         if GLOBAL_ID2CHAIN.setdefault(oid, nc) != nc:
             out.append(V("C08", "C08/id-collision-across-positions", "id shared by chains %s and %s" % (GLOBAL_ID2CHAIN[oid], nc)))
+    # the branches of a map/parallel are distinct positions: the result reports each index once, and a block that ran to completion
+    # recorded one branch context per position
+    for e in ix.trace:
+        if e["kind"] != "batch" or e.get("items") is None:
+            continue
+        node = ix.nodes.get(e["path"]) or {}
+        nb = len(node.get("branches") or node.get("items") or [])
+        idx = [it[0] for it in e["items"]]
+        if len(set(idx)) != len(idx) or any(not (0 <= i < nb) for i in idx):
+            out.append(V("C08", "C08/branch-positions-collide", "%s with %d branches reported item indices %s" % (e["path"], nb, idx), e["i"]))
+        elif e.get("reason") == "ALL_COMPLETED" and all(it[1] != "STARTED" for it in e["items"]):
+            pid = p2i.get(e["path"])
+            kids = {u["Id"] for a in ix.trace if a["kind"] == "api" for u in a.get("updates") or []
+                    if u.get("ParentId") == pid and u.get("Type") == "CONTEXT" and u.get("Action") == "START"} if pid else None
+            started_here = kids is not None and any(a["kind"] == "api" and any(u["Id"] == pid and u.get("Action") == "START" for u in a.get("updates") or [])
+                                                    for a in ix.trace)
+            if started_here and len(idx) == nb and len(kids) != nb:
+                out.append(V("C08", "C08/branch-positions-collide", "%s with %d branches recorded %d distinct branch contexts" % (e["path"], nb, len(kids)), e["i"]))
     ix.r.setdefault("stats", {})["c08_positions"] = len(p2i)
     ix.r["stats"]["c08_chains"] = n_chain
     return out
